@@ -209,7 +209,8 @@ DecodeClauses(e) ==
    ELSE {})
   \cup
   (* C09: a message or an error *)
-  (IF P("C09") /\ e.res \notin {"ok", "err"} THEN {<<"C09.decode-outcome", "none">>} ELSE {})
+  (IF P("C09") /\ e.res \notin {"ok", "err"}
+   THEN {<<"C09.decode-outcome", IF e.res = "abort" THEN "Reserve_BeforeCheck" ELSE "none">>} ELSE {})
   \cup
   (* C10: allocation bounded by a constant plus a multiple of the input present *)
   (IF P("C10") /\ e.alloc >= 0 /\ e.alloc > 16384 + 64 * e.inlen
@@ -277,7 +278,8 @@ PrimClauses(e) ==
           \cup (IF P("C03") /\ fn \in IntOnlyFns /\ R.ok /\ ~agree THEN {<<"C03.primitive-read", "none">>} ELSE {})
           \cup (IF P("C18") /\ R.ok /\ ~agree THEN {<<"C18.read-back", "none">>} ELSE {})
           \cup (IF P("C11") /\ ~R.ok /\ R.why = "short" /\ e.res # "err" THEN {<<"C11.primitive-short-read", "none">>} ELSE {})
-          \cup (IF P("C09") /\ e.res \notin {"ok", "err"} THEN {<<"C09.primitive-outcome", "none">>} ELSE {})
+          \cup (IF P("C09") /\ e.res \notin {"ok", "err"}
+              THEN {<<"C09.primitive-outcome", IF e.res = "abort" THEN "Reserve_BeforeCheck" ELSE "none">>} ELSE {})
           \cup (IF P("C10") /\ e.alloc >= 0 /\ e.alloc > 16384 + 64 * e.inlen THEN {<<"C10.primitive-alloc", "Reserve_BeforeCheck">>} ELSE {})
 
 CalcClauses(e) ==
